@@ -48,6 +48,15 @@ class C07Ext(statsext.StatsExt):
         super().on_construct(runner, model)
         self.runner = runner
         self.model = model
+        su = self.case.get("seed_update")
+        if su:
+            # the model registers its streams under ids (one generator may serve
+            # several ids) and lets a seed updater set the seeds of this replication
+            from pydsol.core.streams import StreamSeedUpdater, SimpleStreamUpdater
+            streams = {name: model.streams[si % len(model.streams)] for name, si in su["names"]}
+            upd = StreamSeedUpdater(dict(su["table"])) if su["table"] is not None \
+                else SimpleStreamUpdater()
+            upd.update_seeds(streams, su["r"])
         model.dists = [DISTS[name](model.streams[si % len(model.streams)], params)
                        for name, params, si in self.case["dists"]]
         model.user = EventProducer()
